@@ -16,6 +16,7 @@ import ClipVerif.Model.Tree
 import ClipVerif.Model.AreaOP
 import ClipVerif.Model.Contain
 import ClipVerif.Model.AelOrder
+import ClipVerif.Model.OffsetGeom
 /-
 Correspondence side of the line protocol: `model <name> …` evaluates a hand model, `gen <fn> …`
 evaluates a generated function; both print the result in a canonical form that the harness
@@ -100,6 +101,14 @@ def model (name : String) (ts : Toks) : String :=
           | none => s!"order-changed | {valid}"
       | none => "parse-error"
     | none => "parse-error"
+  | "offraw", jt :: dbits :: mbits :: rest =>
+    -- raw offset ring of one closed path: join type, bit patterns of group delta and miter limit, path
+    match takePath rest with
+    | some (p, []) =>
+      let f (n : Int) : Float := Float.ofBits (UInt64.ofNat n.toNat)
+      let cfg : Model.OffCfg := { groupDelta := f dbits, joinType := jt.toNat, mitLimSqr := Model.mitLimSqrOf (f mbits) }
+      showPath (Model.offsetPolygon cfg (toP64 p).toArray)
+    | _ => "parse-error"
   | "contain", rest =>
     match takePath rest with
     | some (p1, rest) => match takePath rest with
